@@ -164,6 +164,10 @@ def c01_specs(tier: str, kmode: str = "zero", terminals=T_FULL, soi_free: bool =
         for tv in trivs:
             sigma = SIGMA_CORE + TRIVIA_SIGMA[tv] + extra_sigma
             ins = inputs(sigma, length_for(sigma, mi))
+            if tv in extra_trivia:
+                # configurations added for one property: a small alphabet, so that inputs reach length 3
+                sigma = "ab" + TRIVIA_SIGMA[tv]
+                ins = inputs(sigma, 3)
             starts = [((), (m, body)) for body in bodies(n) for m in mods]
             out.extend(batch_specs(starts, TRIVIA[tv] + HELPERS, ins, kmode, f"top(n<={n},{tv})"))
     hole_n, trivs = b["ctx"]
